@@ -39,6 +39,7 @@ import (
 	"net"
 	"sort"
 	"strings"
+	"sync"
 	"sync/atomic"
 	"testing"
 
@@ -326,7 +327,48 @@ func c06Learned(m *routing.Manager) map[identity.AgentID]map[string]bool {
 	return out
 }
 
-func c06Run(r *vmc.Result, c c06Case) {
+// c06Findings keeps, per fingerprint, the violation of the earliest grid case (the grid
+// is ordered smallest-first) and the number of violating cases, independent of which
+// worker goroutine got there first.
+type c06Finding struct {
+	idx, count int
+	what       string
+	c          c06Case
+}
+type c06Findings struct {
+	mu   sync.Mutex
+	best map[string]*c06Finding
+}
+
+func (f *c06Findings) add(idx int, fp, what string, c c06Case) {
+	f.mu.Lock()
+	defer f.mu.Unlock()
+	cur := f.best[fp]
+	if cur == nil {
+		f.best[fp] = &c06Finding{idx, 1, what, c}
+		return
+	}
+	cur.count++
+	if idx < cur.idx {
+		cur.idx, cur.what, cur.c = idx, what, c
+	}
+}
+
+func (f *c06Findings) emit(r *vmc.Result) {
+	var fps []string
+	for fp := range f.best {
+		fps = append(fps, fp)
+	}
+	sort.Strings(fps)
+	for _, fp := range fps {
+		b := f.best[fp]
+		for i := 0; i < b.count; i++ {
+			r.Violate(fp, b.what, b.c)
+		}
+	}
+}
+
+func c06Run(r *vmc.Result, found *c06Findings, idx int, c c06Case) {
 	logc := &c06LogCounter{}
 	cfg := DefaultFloodConfig()
 	cfg.Logger = slog.New(logc)
@@ -455,7 +497,7 @@ func c06Run(r *vmc.Result, c c06Case) {
 			maxFrames = obs.frames
 		}
 		if obs.undecodable > 0 {
-			r.Violate("C06/"+site+bucket(),
+			found.add(idx, "C06/"+site+bucket(),
 				fmt.Sprintf("%s: the sender accepted %d frame(s) without error, the neighbour's DecodeRouteAdvertise rejects %d of them, so those routes never arrive", describe(), obs.frames, obs.undecodable), c)
 			outcome = "undecodable"
 		}
@@ -469,12 +511,12 @@ func c06Run(r *vmc.Result, c c06Case) {
 		for o := range origins {
 			missing, extra := c06Diff(want[o], obs.decoded[o])
 			if len(extra) > 0 {
-				r.Violate("C06/"+site+bucket(),
+				found.add(idx, "C06/"+site+bucket(),
 					fmt.Sprintf("%s: neighbour decodes %d route(s) that were never configured for origin %s, e.g. %v (and misses %d)", describe(), len(extra), o.ShortString(), c06Head(extra), len(missing)), c)
 				outcome = "different-set"
 			}
 			if len(missing) > 0 && !visible && obs.undecodable == 0 {
-				r.Violate("C06/"+site+bucket(),
+				found.add(idx, "C06/"+site+bucket(),
 					fmt.Sprintf("%s: %d of %d routes of origin %s never reach the neighbour and nothing reported it (frames=%d, send errors=0, warnings=0), e.g. %v", describe(), len(missing), len(want[o]), o.ShortString(), obs.frames, c06Head(missing)), c)
 				if outcome == "" {
 					outcome = "silently-missing"
@@ -504,7 +546,7 @@ func c06Run(r *vmc.Result, c c06Case) {
 				}
 				missing, extra := c06Diff(wantLearn, got[o])
 				if len(missing)+len(extra) > 0 {
-					r.Violate("C06/"+site+"/neighbour-learned-set-differs-from-decoded"+bucket(),
+					found.add(idx, "C06/"+site+"/neighbour-learned-set-differs-from-decoded"+bucket(),
 						fmt.Sprintf("%s: a real neighbour Flooder fed the decoded advertisements misses %v and has extra %v for origin %s", describe(), c06Head(missing), c06Head(extra), o.ShortString()), c)
 					outcome = "neighbour-differs"
 				}
@@ -573,21 +615,42 @@ func TestVerif_C06(t *testing.T) {
 	r.Info["route_counts"] = fmt.Sprintf("%d..%d (%d values)", ns[0], ns[len(ns)-1], len(ns))
 	r.Info["grid_cases"] = len(cases)
 
+	found := &c06Findings{best: map[string]*c06Finding{}}
 	var one c06Case
 	if r.ReplayInto(&one) {
-		c06Run(r, one)
+		c06Run(r, found, 0, one)
 	} else {
-		for i, c := range cases {
-			if r.Shards > 1 && i%r.Shards != r.Shard {
-				continue
-			}
-			if i%64 == 0 && r.Expired() {
-				r.NotExhaustive("deadline hit inside the grid")
-				break
-			}
-			c06Run(r, c)
+		// the cases are independent (each builds its own Flooders): 16 worker goroutines
+		// take them in grid order
+		var next atomic.Int64
+		var stop atomic.Bool
+		var wg sync.WaitGroup
+		for wk := 0; wk < 16; wk++ {
+			wg.Add(1)
+			go func() {
+				defer wg.Done()
+				for {
+					i := int(next.Add(1)) - 1
+					if i >= len(cases) || stop.Load() {
+						return
+					}
+					if r.Shards > 1 && i%r.Shards != r.Shard {
+						continue
+					}
+					if i%64 == 0 && r.Expired() {
+						stop.Store(true)
+						return
+					}
+					c06Run(r, found, i, cases[i])
+				}
+			}()
+		}
+		wg.Wait()
+		if stop.Load() {
+			r.NotExhaustive("deadline hit inside the grid")
 		}
 	}
+	found.emit(r)
 	if err := r.Finish(); err != nil {
 		t.Fatal(err)
 	}
